@@ -452,7 +452,8 @@ def handle (op : String) (args : List String) : Option String :=
           "fits=" ++ boolStr (fits P fuel top.callee), "nodisabled=" ++ boolStr (noDisabled P top)] ++
           " pipes=" ++ ",".intercalate (pipes.map fun q => boolStr (okPipe P q)) ++
           " why=" ++ ",".intercalate (((pipes.flatMap (whyPipe P)) ++
-            (if pipes.all (fun q => umapPipe P top.callee.name q) then [] else ["umapref"])).eraseDups))
+            (if pipes.all (fun q => umapPipe P top.callee.name q) then [] else ["umapref"]) ++
+            (if pipes.all ctlPipe then [] else ["ctlfed"])).eraseDups))
       | _ => none
     | [] => none
   | "evalT", [env, cid, v, t, e] => do
